@@ -5,13 +5,43 @@ ROOT = os.path.dirname(os.path.dirname(os.path.abspath(__file__)))
 props = [json.loads(l) for l in open(os.path.join(ROOT, "properties.jsonl"))]
 
 # property -> (technique, level text, level note, design ref)
+NOTE = "Coq kernel; hand-written model tied to /repo only by the correspondence check on the generated cases; lib-bdd, regex, csv, tabled modelled, not verified"
+def C(tech, text, ref): return (tech, text, NOTE, "DESIGN.md section 6, " + ref)
 CLAIMED = {
- "C02": ("Coq theorems (evaluation = denotation, checked mode, coincidence) + differential correspondence model vs code",
-         "machine-checked proof about the Gallina model of the three evaluators, for all expressions/tables/diagrams and all assignments; the model is tied to /repo by running both on all trees up to a size bound under all partial assignments",
-         "Coq kernel; hand-written model; lib-bdd modelled as canonical decision trees; correspondence only on generated cases", "DESIGN.md section 6, C02"),
- "C05": ("Coq theorems (restriction refines override, inputs = difference, wf preserved) + differential correspondence",
-         "machine-checked proof for all functions and all partial assignments (empty and foreign included); tie by exhaustive enumeration of functions of <= 3 variables x all partial assignments, three representations",
-         "Coq kernel; hand-written model; lib-bdd modelled; correspondence only on generated cases", "DESIGN.md section 6, C05"),
+ "C01": C("Coq theorems per conversion (5 correct for all inputs; table->Bdd refuted = known finding D1) + differential correspondence on all conversion paths",
+          "proof for all expressions/tables/diagrams that five conversions preserve function and inputs; the sixth is proved to be wrong (constant true) and listed as known finding D1; every conversion path up to a length bound for all functions of <= 3 variables is run against the code", "C01"),
+ "C02": C("Coq theorems (evaluation = denotation, checked mode, coincidence) for the three representations + differential correspondence",
+          "proof for all objects and assignments; tie by all trees up to a size bound under all partial assignments", "C02"),
+ "C03": C("Coq theorems (connectives pointwise over the union of inputs, extend_ok = the unsafe block's precondition) + differential correspondence",
+          "proof for all operands of the three representations; tie by every pair of functions of <= 2 variables under every alignment, three call forms", "C03"),
+ "C04": C("Coq theorems (is_equivalent / is_implied_by decide semantic equality / entailment; canonicity of ordered reduced trees) + differential correspondence",
+          "proof for all pairs; tie by all aligned pairs of small functions, directly and through identity histories", "C04"),
+ "C05": C("Coq theorems (restriction refines override, inputs = difference, wf preserved, prune_ok) + differential correspondence",
+          "proof for all functions and partial assignments; tie exhaustive on functions of <= 3 variables x all partial assignments", "C05"),
+ "C06": C("Coq theorems (quantifiers = elimination one variable at a time = combination over all assignments, order independent) + differential correspondence",
+          "proof for all functions and variable sets in the three representations; tie exhaustive on functions of <= 3 variables x all subsets of a 4-name universe", "C06/C07"),
+ "C07": C("Coq theorems (derivative = xor-elimination = parity over all assignments; single variable; independent variable; empty set) + differential correspondence",
+          "proof for all functions and variable sets; tie exhaustive as C06", "C06/C07"),
+ "C08": C("Coq theorems (substitution = simultaneous composition; only the documented refusal panics; keys stay only if mentioned) + differential correspondence",
+          "proof for all functions and maps in the three representations; tie by exhaustive small maps incl. foreign keys, mutual references, fresh variables", "C08"),
+ "C09": C("Coq theorems (essential inputs = variables the function depends on, three algorithms; support = dependence by canonicity) + differential correspondence",
+          "proof for all objects; tie by all functions of <= 3 (4) variables with padded inessential inputs in every position", "C09"),
+ "C10": C("Coq theorems (domain = all points once in value order; image, relation, support, weight, sat point characterised; codec) + differential correspondence",
+          "proof for all objects of the three representations (diagram weight and sat point: correspondence only); tie by all functions of <= 3 (4) variables", "C10"),
+ "C11": C("Coq theorems (nnf/cnf/dnf preserve the function, add no variables, have the promised shape; predicates = reference shapes) + differential correspondence",
+          "proof for all expression trees; tie by all trees up to a size bound, returned tree compared structurally", "C11"),
+ "C12": C("Coq theorems (tokenizer = declarative reference lexer on every Unicode string; parse_tokens = reference grammar; from_str = reference reading) + differential correspondence",
+          "proof for all strings; tie by all token pairs/triples over the full alphabet, spacings, window edges, random sentences", "C12"),
+ "C13": C("Coq theorems (from_str total, never panics, fuel suffices, rejects exactly what the reference grammar rejects; each malformed class) + differential correspondence",
+          "proof for all strings about the model; stack depth and time are runtime behaviour exercised up to depth 300/1000 (partial)", "C13"),
+ "C14": C("Coq theorems (print then parse: same tree for proper trees, same function and variables for printable ones) + differential correspondence",
+          "proof for all printable expression trees; tie by all trees up to a size bound over identifier-safe names", "C14"),
+ "C16": C("Coq theorems (import sound and complete w.r.t. 'the records describe a complete unambiguous table'; never panics; entry points agree) + differential correspondence",
+          "proof for all record lists / texts relative to the csv splitter model; tie by all small tables x permutations x spellings, all single-fault mutations, random text, both entry points", "C16"),
+ "C17": C("Coq theorems (export/import round trip for csv-safe names, all 16 formattings; line structure) + differential correspondence",
+          "proof for all well-formed tables with csv-safe names; tie by every function of <= 3 (4) variables x 16 formattings, byte for byte", "C17"),
+ "C18": C("Coq theorems (cells read back from the rendering = header + relation, four styles, any width function; Display = frameless/word) + differential correspondence",
+          "proof for all tables with clean names relative to the tabled model; tie byte for byte plus an independent cell reader on the real output", "C18"),
 }
 REASONS = {}
 hooks = subprocess.run("git -C /repo log --format=%h --grep='^verif hooks'", shell=True, capture_output=True, text=True).stdout.split()
